@@ -21,7 +21,7 @@ ID = "C19"
 LEVEL = "fault_enumeration"
 RULE = (
     "Invocation = request set (1..4 of: current / deprecated SPDX identifiers, 'ID+', unknown names, LicenseRef- with / without --source file | directory | "
-    "directory lacking the file) | --all over a project with 0..4 missing licences | -o PATH, x per-identifier network plan {200 + body, 404, 500, "
+    "directory lacking the file) | --all over a project with 0..4 missing licences (some of them unknown identifiers) | -o PATH, x per-identifier network plan {200 + body, 404, 500, "
     "connection reset, body shorter than Content-Length} x LICENSES/ pre-state {absent, empty, target already present with sentinel bytes} x cwd {root, "
     "sub-directory of a Git repository, inside LICENSES/ with and without Git, outside with --root}; sequences of 1..3 invocations.  Oracle: every "
     "pre-existing file byte-identical; new files only LICENSES/<id without '+'>.txt under the root (or the -o path) with exactly the served body / the "
@@ -72,7 +72,7 @@ def invocation(draw):
 def case(draw):
     return {"git": draw(st.booleans()), "licenses_state": draw(st.sampled_from(["absent", "empty", "some"])),
             "preexisting": draw(st.lists(st.sampled_from(VALID + ["LicenseRef-custom"]), max_size=3, unique=True)),
-            "used": draw(st.lists(st.sampled_from(VALID + ["LicenseRef-custom", "MIT+"]), max_size=4, unique=True)),
+            "used": draw(st.lists(st.sampled_from(VALID + ["LicenseRef-custom", "MIT+", "NotALicense", "GPL-9.9"]), max_size=4, unique=True)),
             "steps": draw(st.lists(invocation(), min_size=1, max_size=3))}
 
 
